@@ -4,7 +4,7 @@
    closes by either side, timers, at arbitrary positions relative to frames in flight.
    Only property theorems here, each closed by [exact]. *)
 From Coq Require Import NArith ZArith List Bool.
-From Cloak Require Import Model.Reorder Model.Mux Proofs.MuxBase Proofs.MuxSafety.
+From Cloak Require Import Model.Reorder Model.Mux Proofs.MuxBase Proofs.MuxSafety Proofs.MuxCount.
 Import ListNotations.
 Local Open Scope N_scope.
 
@@ -67,3 +67,26 @@ Theorem C12_wellformed_always :
   forall k sp u ta tb ls, WF (reach k sp u ta tb ls).
 Proof. exact reach_WF. Qed.
 Print Assumptions C12_wellformed_always.
+
+(* At every quiescent moment of a live session the count of active streams equals the number of
+   open streams (the counter is a uint32, hence "mod 2^32"), over every label sequence: faults,
+   closes by either side, timers, any arrival order.  [fresh_opens]: the ids handed out by
+   OpenStream are fresh (no 2^32 wrap-around of the id counter and no two openers of the same id). *)
+Theorem C12_count_equals_open_streams :
+  forall k sp u ta tb ls x,
+  fresh_opens (init k sp u ta tb) ls ->
+  let se := sess (reach k sp u ta tb ls) x in
+  se_closed se = false -> se_count se = N.of_nat (List.length (live_streams se)) mod two32.
+Proof. exact count_equals_open_streams. Qed.
+Print Assumptions C12_count_equals_open_streams.
+
+(* ... hence the inactivity check closes a multiplexed session only while it has no open stream *)
+Theorem C12_timer_closes_only_without_open_streams :
+  forall k sp u ta tb ls d ch s,
+  fresh_opens (init k sp u ta tb) ls ->
+  let y := reach k sp u ta tb ls in
+  let y' := fst (step y (LTick d) ch) in
+  N.of_nat (List.length (live_streams (sess y s))) < two32 ->
+  se_closed (sess y s) = false -> se_closed (sess y' s) = true -> live_streams (sess y s) = [].
+Proof. exact timer_closes_only_without_open_streams. Qed.
+Print Assumptions C12_timer_closes_only_without_open_streams.
